@@ -1,13 +1,12 @@
 SPECIFICATION Spec
 CONSTANTS
   Cap = 2
-  Scripts <- MCScripts4
+  Scripts <- MCBadForSequential
   Sequential = FALSE
   Mode = "mc"
-  EmitTR = TRUE
+  EmitTR = FALSE
   Api = "spawn"
   WCaps = {1, 3}
   WriteAll = TRUE
-  SpawnWaits = FALSE
-INVARIANTS Delivered InOrder
-PROPERTIES Terminates Returns
+  SpawnWaits = TRUE
+PROPERTIES Returns
